@@ -246,6 +246,12 @@ func c05Alphabet(s *sessSys) []sessReq {
 					nq.MBRUL, nq.MBRDL = q4.MBRUL+50000, q4.MBRDL+50000
 					add("mod-uqer-raise-flow-mbr", sessReq{sReq: sReq{Kind: kMod, Conn: c, UpdateQER: []sQER{nq}}, Sess: x.Idx})
 				}
+				if q4 := x.qer(4); q4 != nil && !q4.HasGBR {
+					// the session-wide QER is given a guaranteed bit rate (it no longer qualifies as the limiter)
+					nq := *q4
+					nq.HasGBR, nq.GBRUL, nq.GBRDL = true, 1000, 1000
+					add("mod-uqer-session-gets-gbr", sessReq{sReq: sReq{Kind: kMod, Conn: c, UpdateQER: []sQER{nq}}, Sess: x.Idx})
+				}
 				if f := x.far(2); f != nil && f.Action != ActionForward && f.OHCIP == "" {
 					add("mod-ufar-resume", sessReq{sReq: sReq{Kind: kMod, Conn: c, UpdateFAR: []sFAR{{ID: 2, Action: ActionForward, HasFwd: true, HasDst: true, Dst: ie.DstInterfaceAccess, OHCIP: c04Peers[0], OHCTEID: 0x7003}}}, Sess: x.Idx})
 				}
